@@ -205,10 +205,16 @@ class GroupBy:
             The keys to group by, which can be a single array-like object or a collection of them.
         """
         if isinstance(group_keys, GroupBy):
-            self._group_ikey, self._result_index = (
-                group_keys.group_ikey,
-                group_keys.result_index,
-            )
+            # same logical grouping (codes, labels, key index, representation), fresh caches
+            for attr in (
+                "_group_ikey",
+                "_result_index",
+                "_key_index",
+                "_index_is_sorted",
+                "_group_key_pointers",
+                "_sort",
+            ):
+                setattr(self, attr, getattr(group_keys, attr))
             return
 
         group_key_list, group_key_names = convert_data_to_arr_list_and_keys(group_keys)
